@@ -4,7 +4,7 @@ proof        : coq/Props/C20.v  (Model/Diff.v = hand transliteration of diff.bar
                reconstruction / totality / identical-inputs theorems for ALL line lists; the REGENERATED line-split regex is
                the LF/CRLF split for ALL strings; the MODEL parser accepts every REGENERATED include text)
 direct oracle: diffLines executed by the implementation through parse_script + execute_script with `include <diff.bare>`
-               resolved by the CLI fetcher (bare._fetch_include, systemPrefix) on: all pairs of line lists of length <= 5
+               resolved by the CLI fetcher (bare._fetch_include, systemPrefix) on: all pairs of line lists of length <= 4
                (quick) / <= 6 (thorough) over {a,b,c}, random edit-script pairs up to 40 lines, texts with LF / CRLF / mixed
                endings, arrays of multi-line chunks, odd characters; harness/impl_workers/c20_oracle.py evaluates the
                property (reconstruct both sides, non-empty well-formed blocks, identical lines => no Add/Remove).
@@ -214,7 +214,7 @@ def run(tier):
         a, b = odd_case(r)
         cases.append((a, b, 'odd'))
 
-    maxlen = 5 if tier == 'quick' else 6
+    maxlen = 4 if tier == 'quick' else 6
     nsh = core.NPROC
     payload = [{'left': a, 'right': b} for a, b, _ in cases]
     exh_payload = [{'exhaustive': {'alphabet': ALPHABET, 'maxlen': maxlen, 'shard': k, 'of': nsh}} for k in range(nsh)]
